@@ -64,7 +64,7 @@ def walk_nodes(scfg):
     yield from rec(scfg, scfg.region.name)
 
 
-def export(orig, scfg):
+def export(orig, scfg, extra_names=(), extra_vars=(), extra_payloads=()):
     """rows (list of int lists) and the interning tables."""
     from numba_scfg.core.datastructures.basic_block import (
         RegionBlock,
@@ -78,8 +78,9 @@ def export(orig, scfg):
     for _, (pl, succ) in orig.items():
         strs.update(succ)
     strs.add(scfg.region.name)
-    variables = set()
-    payloads = set(pl for pl, _ in orig.values())
+    strs.update(extra_names)
+    variables = set(extra_vars)
+    payloads = set(pl for pl, _ in orig.values()) | set(extra_payloads)
     for key, b, g, rname in nodes:
         strs.add(key)
         strs.add(b.name)
